@@ -145,7 +145,7 @@ def gen_batch(r, bi, services=False, can=False, n_random=(6, 9), out_of_order=Tr
             k += 1
         # dedicated small CAN messages with names of 1..12 characters
         for nm, w in (("M", 5), ("Msg%dAbcdefgh" % bi, 12), ("Cn%d" % bi, 33)):
-            if k >= 10:
+            if k >= 13:
                 break
             add(nm, [("v", 0, ("u", w)), ("w", 1, ("i", min(64 - w, 11)))])
             bus = buses[k % len(buses)]
